@@ -16,6 +16,9 @@ Proof. vm_compute. reflexivity. Qed.
 Lemma plan_cases_match_model : forallb pcase_ok plan_cases = true.
 Proof. vm_compute. reflexivity. Qed.
 
+Lemma limit_cases_match_model : forallb vcase_ok limit_cases = true.
+Proof. vm_compute. reflexivity. Qed.
+
 (* coverage of the theorem classes on this run's scripts: (cases, in ext_safe as_written, in ext_safe pre_fix) *)
 Eval vm_compute in (N.of_nat (length tree_cases), count_safe as_written tree_cases, count_safe pre_fix tree_cases).
 
